@@ -29,6 +29,7 @@ def run(ctx):
         for eng in ("numpy", "normal"):
             ev = lastext.read_event("C06", inst, concrete, engines=(eng,), null=null)
             events.append(ev)
+            lastext.engine_drift(ctx, inst, ev, eng)
             meta.append({"tag": inst["tag"], "engine": eng, "null": null, "concrete": concrete})
             ctx.evaluations += 1
             ctx.case([inst["tag"], eng])
